@@ -282,6 +282,18 @@ def main(mod, argv=None):
     pid = mod.PID
     t0 = time.time()
     os.chdir(VERIF)
+    # overall watchdog: whatever hangs (a comparator, a driver, the build), the check ends with exit code 2 — never a VIOLATION
+    import threading
+
+    limit = float(os.environ.get("VERIF_MAX_SECONDS", "2400" if tier == "quick" else "14400"))
+
+    def _giveup():
+        print(f"TIMEOUT in machinery: {pid} --tier {tier} exceeded {limit:.0f}s (not a violation)", file=sys.stderr, flush=True)
+        os._exit(2)
+
+    wd = threading.Timer(limit, _giveup)
+    wd.daemon = True
+    wd.start()
     try:
         rc = _main(mod, pid, tier, seed, args, t0)
     except subprocess.TimeoutExpired as e:
